@@ -108,6 +108,7 @@ class Runtime:
         return tuple(sorted(out))
 
     def err_token(self, ex):
+        from ml_pipeline_engine.dag.errors import BaseDagError
         from ml_pipeline_engine.dag.errors import OneOfDoesNotHaveResultError
         from ml_pipeline_engine.dag.errors import RecurrentSubgraphDoesNotHaveResultError
         if isinstance(ex, (PlanError, B1)):
@@ -122,6 +123,8 @@ class Runtime:
             return ('rec_noresult', short(a.get('node_id', '?')) if isinstance(a, dict) else '?')
         if isinstance(ex, asyncio.CancelledError):
             return ('cancelled',)
+        if isinstance(ex, BaseDagError):
+            return ('dag_error', type(ex).__name__)
         return ('exc', type(ex).__name__)
 
     # ---- logging -----------------------------------------------------------------------------------
